@@ -29,6 +29,7 @@ PROPS = {
             regress("C02"),
             {"run": "^TestRefSelf$", "quick": 300, "thorough": 3000, "single": True},
             {"run": "^TestC02$", "quick": 20000, "thorough": 200000},
+            {"run": "^TestC02FileWriter$", "quick": 8000, "thorough": 80000},
         ],
     },
     "C15": {
@@ -93,6 +94,7 @@ PROPS = {
         "units": [
             regress("C06"),
             {"run": "^TestC06$", "quick": 15000, "thorough": 150000, "timeout_quick": 900},
+            {"run": "^TestC06Big$", "quick": 1, "thorough": 1, "rapid": False, "single": True},
             {"fuzz": "FuzzFile", "fuzztime": "90s", "thorough_only": True, "run": "FuzzFile"},
             {"fuzz": "FuzzBody", "fuzztime": "90s", "thorough_only": True, "run": "FuzzBody"},
             {"fuzz": "FuzzSchema", "fuzztime": "60s", "thorough_only": True, "run": "FuzzSchema"},
